@@ -15,6 +15,7 @@ mod heaps;
 mod lists;
 mod opts;
 mod runs;
+mod dump2;
 
 fn run_case(fields: &[&str]) -> String {
     match fields[0] {
@@ -27,6 +28,7 @@ fn run_case(fields: &[&str]) -> String {
         "BUILD" => builds::build_case(fields),
         "LIT" => builds::lit_case(fields),
         "SYM" => builds::sym_case(fields),
+        "SYMNAME" => builds::symname_case(fields),
         "HEAP" => heaps::heap_case(fields),
         "CACHE" => heaps::cache_case(fields),
         "LIST" => lists::list_case(fields),
@@ -36,6 +38,7 @@ fn run_case(fields: &[&str]) -> String {
         "PROG" => runs::prog_case(fields),
         "MULTI" => runs::multi_case(fields),
         "DUMP" => runs::dump_case(fields),
+        "DUMP2" => dump2::dump2_case(fields),
         "DEPTH" => runs::depth_case(fields),
         s => format!("UNKNOWN-SUITE {}", s),
     }
